@@ -1,5 +1,9 @@
 /-
   C10 — without a crash the simulated filesystem behaves like a plain POSIX file tree.
+
+  The statements are about the model of the code as it is in /repo now: `stepFx Fixes.committed`
+  (`Model/Fixed.lean`), i.e. with the six committed repairs 61ef052 8aa6329 977a543 3508629 5c93fae
+  69c39a4.  `…_before` = the model of the code before those repairs (`step`).
 -/
 import TvFs.Model.Fs
 import TvFs.Model.Spec
@@ -7,6 +11,7 @@ import TvFs.Model.Patterns
 import TvFs.Model.Fragment
 import TvFs.Proofs.Partial
 import TvFs.Proofs.Repairs
+import TvFs.Proofs.Committed
 
 namespace TV.C10
 open TV.Fs
@@ -16,12 +21,14 @@ def CrashFree (h : List Op) : Prop := ∀ op ∈ h, op ≠ Op.crash
 
 instance (h : List Op) : Decidable (CrashFree h) := inferInstanceAs (Decidable (∀ op ∈ h, op ≠ Op.crash))
 
-/-- Full statement: on every crash-free history the observations of the implementation model equal
-    those of the POSIX tree. -/
+/-- Full statement: on every crash-free history the observations of the implementation model (the
+    committed code) equal those of the POSIX tree. -/
 def C10_Statement : Prop :=
-  ∀ h : List Op, CrashFree h → run {} St.init (quiet h) = sRun {} Spec.init (quiet h)
+  ∀ h : List Op, CrashFree h → runFx Fixes.committed {} St.init (quiet h) = sRun {} Spec.init (quiet h)
 
-/-! ### witnesses: the faithful model violates the statement (each closed by evaluation) -/
+/-- the same statement for the code before the repairs -/
+def C10_Statement_before : Prop :=
+  ∀ h : List Op, CrashFree h → run {} St.init (quiet h) = sRun {} Spec.init (quiet h)
 
 def a : Path := [97]
 def b : Path := [98]
@@ -32,15 +39,7 @@ def WC : Flags := { w := true, c := true }
 def RW : Flags := { r := true, w := true }
 def R : Flags := { r := true }
 
-/-- F-C10-1: write ABCD, set_len 2, set_len 4 reads ABCD -/
-def hist1 : List Op :=
-  [.writeFile a [65, 66, 67, 68], .open 0 a RW, .setLen 0 2, .setLen 0 4, .readAt 0 0 4]
-
-theorem C10_witness_shrinkGrow : ¬ C10_Statement := by
-  intro h
-  have := h hist1 (by decide)
-  revert this
-  decide
+/-! ### open findings: the committed model still violates the statement (closed by evaluation) -/
 
 /-- F-C10-2: remove + create resurrects the old content -/
 def hist2 : List Op := [.writeFile a [65, 66], .unlink a, .open 0 a WC, .close 0, .readFile a]
@@ -51,12 +50,13 @@ theorem C10_witness_recreate : ¬ C10_Statement := by
   revert this
   decide
 
-/-- F-C10-3: a write through a new handle after a pending rename is invisible -/
-def hist3 : List Op := [.writeFile a [65, 66], .rename a b, .open 0 b W, .writeAt 0 0 [88, 89], .readFile b]
+/-- F-C10-3 (what is left of it): a file created under the *old* name of a pending rename shares the
+    pending-op key with the renamed file — its bytes show up in the renamed file as well -/
+def hist3c : List Op := [.open 0 a WC, .close 0, .rename a b, .writeFile a [65, 66], .readFile b]
 
 theorem C10_witness_dataAcrossRename : ¬ C10_Statement := by
   intro h
-  have := h hist3 (by decide)
+  have := h hist3c (by decide)
   revert this
   decide
 
@@ -87,15 +87,6 @@ theorem C10_witness_renameAcrossRename : ¬ C10_Statement := by
   revert this
   decide
 
-/-- F-C10-7: rmdir of a directory whose only child arrived by a pending rename succeeds -/
-def hist7 : List Op := [.mkdir d, .writeFile a [65], .rename a (d ++ a), .rmdir d]
-
-theorem C10_witness_rmdirRenamedIn : ¬ C10_Statement := by
-  intro h
-  have := h hist7 (by decide)
-  revert this
-  decide
-
 /-- F-C10-8: fsync through a handle whose file was unlinked fails (handles are keyed by path) -/
 def hist8 : List Op := [.open 0 a WC, .unlink a, .syncAll 0]
 
@@ -105,54 +96,133 @@ theorem C10_witness_staleHandle : ¬ C10_Statement := by
   revert this
   decide
 
-/-- F-C10-9: open with create on a directory path succeeds -/
+example : matchesFinding 2 hist2 = true := by decide
+example : matchesFinding 3 hist3c = true := by decide
+example : matchesFinding 4 hist4 = true := by decide
+example : matchesFinding 5 hist5 = true := by decide
+example : matchesFinding 6 hist6 = true := by decide
+example : matchesFinding 8 hist8 = true := by decide
+
+/-! ### repaired findings: `witness_F_…` / `C10_witness_…` on the code before the repair,
+    `fixed_F_…` on the committed model -/
+
+/-- F-C10-1 (61ef052): write ABCD, set_len 2, set_len 4 read ABCD -/
+def hist1 : List Op :=
+  [.writeFile a [65, 66, 67, 68], .open 0 a RW, .setLen 0 2, .setLen 0 4, .readAt 0 0 4]
+
+theorem C10_witness_shrinkGrow : ¬ C10_Statement_before := by
+  intro h
+  have := h hist1 (by decide)
+  revert this
+  decide
+
+theorem witness_F_C10_1 : run {} St.init (quiet hist1) ≠ lRun Live.init hist1 := by decide
+theorem fixed_F_C10_1 : runFx Fixes.committed {} St.init (quiet hist1) = lRun Live.init hist1 := by decide
+/-- in general: on any rename/remove-free log the repaired `read_file` equals the incremental reading of
+    the log, shrinking `set_len`s included -/
+theorem fixed_F_C10_1_general (s : Fs) (h : NoRN s.pending) (p : Path) :
+    contentFx Fixes.committed s p = inc s p := contentFx_eq_inc' _ rfl s h p
+
+/-- F-C10-3, first half (69c39a4): a write through the new name of a file with a pending rename was
+    invisible -/
+def hist3 : List Op := [.writeFile a [65, 66], .rename a b, .open 0 b W, .writeAt 0 0 [88, 89], .readFile b]
+theorem witness_F_C10_3 : run {} St.init (quiet hist3) ≠ lRun Live.init hist3 := by decide
+theorem fixed_F_C10_3 : runFx Fixes.committed {} St.init (quiet hist3) = lRun Live.init hist3 := by decide
+/-- the half that stays open, as an inequality on the committed model -/
+theorem open_F_C10_3_aliasing : runFx Fixes.committed {} St.init (quiet hist3c) ≠ lRun Live.init hist3c := by
+  decide
+
+/-- F-C10-7 (8aa6329): rmdir of a directory whose only child arrived by a pending rename succeeded -/
+def hist7 : List Op := [.mkdir d, .writeFile a [65], .rename a (d ++ a), .rmdir d]
+
+theorem C10_witness_rmdirRenamedIn : ¬ C10_Statement_before := by
+  intro h
+  have := h hist7 (by decide)
+  revert this
+  decide
+
+theorem witness_F_C10_7 : run {} St.init (quiet hist7) ≠ lRun Live.init hist7 := by decide
+theorem fixed_F_C10_7 : runFx Fixes.committed {} St.init (quiet hist7) = lRun Live.init hist7 := by decide
+theorem fixed_F_C10_7_general (fx : Fixes) (s : Fs) (dd aa t : Path) (hfx : fx.childRenamedIn = true)
+    (hde : dirExistsFx fx s dd = true) (hm : POp.rename aa t ∈ s.pending) (hc : isChildOf t dd = true)
+    (he : (fileExistsFx fx s t || dirExistsFx fx s t) = true) : rmdirFx fx s dd = .error .notempty :=
+  rmdirFx_renamedIn fx s dd aa t hfx hde hm hc he
+
+/-- F-C10-9 (977a543): open with create on a directory path succeeded -/
 def hist9 : List Op := [.mkdir d, .open 0 d WC]
 
-theorem C10_witness_createOverDir : ¬ C10_Statement := by
+theorem C10_witness_createOverDir : ¬ C10_Statement_before := by
   intro h
   have := h hist9 (by decide)
   revert this
   decide
 
-/-- every witness history is matched by the pattern of its finding (and by no earlier one) -/
-example : matchesFinding 1 hist1 = true := by decide
-example : matchesFinding 2 hist2 = true := by decide
-example : matchesFinding 3 hist3 = true := by decide
-example : matchesFinding 4 hist4 = true := by decide
-example : matchesFinding 5 hist5 = true := by decide
-example : matchesFinding 6 hist6 = true := by decide
-example : matchesFinding 7 hist7 = true := by decide
-example : matchesFinding 8 hist8 = true := by decide
-example : matchesFinding 9 hist9 = true := by decide
+theorem witness_F_C10_9 : run {} St.init (quiet hist9) ≠ lRun Live.init hist9 := by decide
+theorem fixed_F_C10_9 : runFx Fixes.committed {} St.init (quiet hist9) = lRun Live.init hist9 := by decide
+theorem fixed_F_C10_9_general (fx : Fixes) (s : Fs) (p : Path) (fl : Flags) (hfx : fx.createOverDir = true)
+    (hd : dirExistsFx fx s p = true) (hf : fileExistsFx fx s p = false) (hc : (fl.c || fl.n) = true) :
+    openFsFx fx s p fl = .error (if fl.n then .alreadyexists else .isdir) :=
+  openFsFx_dir_fails fx s p fl hfx hd hf hc
 
-/-- F-C10-10: fsync through the new name of a renamed file flushes nothing and plants an empty
-    inode under the new name; the following sync_dir then loses the content -/
+/-- F-C10-10 (5c93fae): fsync through the new name of a renamed file flushed nothing and planted an
+    empty inode under the new name; the following sync_dir then lost the content -/
 def hist10 : List Op :=
   [.writeFile a [65, 66], .rename a b, .open 0 b R, .syncAll 0, .syncDir [], .readFile b]
 
-theorem C10_witness_fsyncAcrossRename : ¬ C10_Statement := by
+theorem C10_witness_fsyncAcrossRename : ¬ C10_Statement_before := by
   intro h
   have := h hist10 (by decide)
   revert this
   decide
 
+theorem witness_F_C10_10 : run {} St.init (quiet hist10) ≠ lRun Live.init hist10 := by decide
+theorem fixed_F_C10_10 : runFx Fixes.committed {} St.init (quiet hist10) = lRun Live.init hist10 := by decide
+
+example : matchesFinding 1 hist1 = true := by decide
+example : matchesFinding 7 hist7 = true := by decide
+example : matchesFinding 9 hist9 = true := by decide
 example : matchesFinding 10 hist10 = true := by decide
+
+/-- with every flag off the flagged model is the model before the repairs -/
+example : runFx {} {} St.init (quiet hist1) = run {} St.init (quiet hist1) := by decide
+example : runFx {} {} St.init (quiet hist7) = run {} St.init (quiet hist7) := by decide
+
+/-! ### F-C10-5: verified candidate repair that was not taken (`renameKind`, areas/fs/repairs) -/
+
+def fx5 : Fixes := { Fixes.committed with renameKind := true }
+
+theorem witness_F_C10_5 : runFx Fixes.committed {} St.init (quiet hist5) ≠ lRun Live.init hist5 := by decide
+/-- with the candidate, renaming an *empty* directory works (old name gone, new name a directory) -/
+theorem fixed_F_C10_5 : runFx fx5 {} St.init (quiet hist5) = lRun Live.init hist5 := by decide
+def hist5b : List Op :=
+  [.mkdir d, .rename d e, .writeFile (e ++ a) [65], .syncDir [], .syncDir e, .readFile (e ++ a), .readDir e,
+   .stat d]
+theorem fixed_F_C10_5_use : runFx fx5 {} St.init (quiet hist5b) = lRun Live.init hist5b := by decide
+/-- what even the candidate cannot reach: a directory renamed *with children* -/
+def hist5c : List Op := [.mkdir d, .writeFile (d ++ a) [65], .rename d e, .readFile (e ++ a)]
+theorem open_F_C10_5_nonempty : runFx fx5 {} St.init (quiet hist5c) ≠ lRun Live.init hist5c := by decide
 
 /-! ### what is proved: refinement on the fragment -/
 
-/-- `C10_partial`: on every history of the fragment (`fragRun`: all ops except rename / remove_file /
-    remove_dir / remove_dir_all / create_dir_all, no shrinking set_len or truncating open of
-    a non-empty file, no file creation over a directory — conditions judged against the POSIX tree)
-    the implementation model returns exactly the observations of the POSIX tree.  Proof: simulation
-    relation `R` (`abs`: replay of the pending log = incremental content `inc`), `sim_step` (each op
-    commutes with the abstraction), `syncFile_views` / `syncDir_views` (each sync preserves it). -/
-theorem C10_partial (h : List Op) (hf : fragRun Live.init h = true) :
+/-- the refinement for the code before the repairs (proved by simulation: relation `R`, `sim_step`,
+    `syncFile_views` / `syncDir_views`) -/
+theorem C10_partial_before (h : List Op) (hf : fragRun Live.init h = true) :
     run {} St.init (quiet h) = sRun {} Spec.init (quiet h) := by
   rw [run_eq_lRun h St.init Live.init R_init hf]
   exact (sRun_eq_lRun h Spec.init (fragRun_crashFree h Live.init hf)).symm
 
+/-- `C10_partial`: on every history of the fragment (`fragRun`: all ops except rename / remove_file /
+    remove_dir / remove_dir_all / create_dir_all, no shrinking set_len or truncating open of a non-empty
+    file, no file creation over a directory — conditions judged against the POSIX tree) the model of the
+    committed code returns exactly the observations of the POSIX tree.  Proof: inside the fragment the six
+    repairs change no step (`stepFx_c`), so the simulation of `C10_partial_before` carries over. -/
+theorem C10_partial (h : List Op) (hf : fragRun Live.init h = true) :
+    runFx Fixes.committed {} St.init (quiet h) = sRun {} Spec.init (quiet h) := by
+  rw [runFx_c h St.init Live.init R_init hf]
+  exact C10_partial_before h hf
+
 /-- the fragment is not trivial: create, write with a hole, overlapping write, extend, syncs in
-    between, reads -/
+    between, reads, listings -/
 def fragExample : List Op :=
   [.mkdir d, .open 0 (d ++ a) { r := true, w := true, c := true }, .writeAt 0 2 [65, 66],
    .syncAll 0, .writeAt 0 3 [67], .setLen 0 6, .syncDir d, .syncDir [], .readAt 0 0 8,
@@ -160,14 +230,15 @@ def fragExample : List Op :=
    .dump [a, b, d, d ++ a], .readFile (d ++ a)]
 
 example : fragRun Live.init fragExample = true := by decide
-example : (run {} St.init (quiet fragExample)).getLast? = some (.data [0, 0, 65, 67, 0, 0]) := by decide
+example : (runFx Fixes.committed {} St.init (quiet fragExample)).getLast? = some (.data [0, 0, 65, 67, 0, 0]) := by
+  decide
 
 /-- `C10_sync_invisible`: inserting a sync_all / sync_data / sync_dir anywhere in a fragment history
     changes no later observation -/
 theorem C10_sync_invisible (h1 h2 : List Op) (s : Op) (hs : isSync s = true)
     (hf : fragRun Live.init (h1 ++ h2) = true) :
-    (run {} St.init (quiet (h1 ++ s :: h2))).drop (h1.length + 1) =
-      (run {} St.init (quiet (h1 ++ h2))).drop h1.length := by
+    (runFx Fixes.committed {} St.init (quiet (h1 ++ s :: h2))).drop (h1.length + 1) =
+      (runFx Fixes.committed {} St.init (quiet (h1 ++ h2))).drop h1.length := by
   obtain ⟨l', _, e2, e3⟩ := lRun_append h1 h2 Live.init
   have hf2 : fragRun Live.init (h1 ++ s :: h2) = true := by
     rw [e3 (s :: h2)]
@@ -176,6 +247,7 @@ theorem C10_sync_invisible (h1 h2 : List Op) (s : Op) (hs : isSync s = true)
     refine ⟨hf.1, ?_⟩
     simp only [fragRun, Bool.and_eq_true]
     exact ⟨fragOk_sync l' s hs, by rw [lStep_sync l' s hs]; exact hf.2⟩
+  rw [runFx_c _ St.init Live.init R_init hf2, runFx_c _ St.init Live.init R_init hf]
   rw [run_eq_lRun _ St.init Live.init R_init hf2, run_eq_lRun _ St.init Live.init R_init hf]
   rw [e2 (s :: h2), e2 h2]
   simp only [lRun, lStep_sync l' s hs]
@@ -186,74 +258,5 @@ theorem C10_sync_invisible (h1 h2 : List Op) (s : Op) (hs : isSync s = true)
   rfl
 
 example : isSync (.syncDir []) = true := rfl
-
-/-! ### repairs (areas/fs/repairs/*.patch): `witness_F_…` on the code as found, `fixed_F_…` on the
-    model with the repair's flag on (`Model/Fixed.lean`) -/
-
-def fx1 : Fixes := { readOrder := true }
-def fx5 : Fixes := { renameKind := true }
-def fx7 : Fixes := { childRenamedIn := true }
-def fx9 : Fixes := { createOverDir := true }
-
-/-- with every flag off the flagged model is the code-as-found model (on every witness history) -/
-example : runFx {} {} St.init (quiet hist1) = run {} St.init (quiet hist1) := by decide
-example : runFx {} {} St.init (quiet hist5) = run {} St.init (quiet hist5) := by decide
-example : runFx {} {} St.init (quiet hist7) = run {} St.init (quiet hist7) := by decide
-
-theorem witness_F_C10_1 : run {} St.init (quiet hist1) ≠ lRun Live.init hist1 := by decide
-/-- F-C10-1 repaired: the canonical history reads `AB\0\0` -/
-theorem fixed_F_C10_1 : runFx fx1 {} St.init (quiet hist1) = lRun Live.init hist1 := by decide
-/-- F-C10-1 repaired, in general: on any rename/remove-free log the repaired `read_file` equals the
-    incremental reading of the log, shrinking `set_len`s included (the no-shrink hypothesis of
-    `content_eq_inc`, i.e. of `C10_partial`'s fragment, is what the defect cost) -/
-theorem fixed_F_C10_1_general (s : Fs) (h : NoRN s.pending) (p : Path) : contentFx fx1 s p = inc s p :=
-  contentFx_eq_inc s h p
-
-theorem witness_F_C10_5 : run {} St.init (quiet hist5) ≠ lRun Live.init hist5 := by decide
-/-- F-C10-5 narrowed: renaming an *empty* directory works (old name gone, new name a directory) -/
-theorem fixed_F_C10_5 : runFx fx5 {} St.init (quiet hist5) = lRun Live.init hist5 := by decide
-/-- …and a file can then be created and read below the new name, syncs included -/
-def hist5b : List Op :=
-  [.mkdir d, .rename d e, .writeFile (e ++ a) [65], .syncDir [], .syncDir e, .readFile (e ++ a), .readDir e,
-   .stat d]
-theorem fixed_F_C10_5_use : runFx fx5 {} St.init (quiet hist5b) = lRun Live.init hist5b := by decide
-/-- what the local repair cannot reach: a directory renamed *with children* still leaves them under
-    the old name (children are keyed by path) — F-C10-5 stays open for non-empty directories -/
-def hist5c : List Op := [.mkdir d, .writeFile (d ++ a) [65], .rename d e, .readFile (e ++ a)]
-theorem open_F_C10_5_nonempty : runFx fx5 {} St.init (quiet hist5c) ≠ lRun Live.init hist5c := by decide
-
-theorem witness_F_C10_7 : run {} St.init (quiet hist7) ≠ lRun Live.init hist7 := by decide
-theorem fixed_F_C10_7 : runFx fx7 {} St.init (quiet hist7) = lRun Live.init hist7 := by decide
-/-- F-C10-7 repaired, in general: `rmdir` refuses any directory that holds an entry which arrived by
-    a pending rename -/
-theorem fixed_F_C10_7_general (fx : Fixes) (s : Fs) (dd aa t : Path) (hfx : fx.childRenamedIn = true)
-    (hde : dirExistsFx fx s dd = true) (hm : POp.rename aa t ∈ s.pending) (hc : isChildOf t dd = true)
-    (he : (fileExistsFx fx s t || dirExistsFx fx s t) = true) : rmdirFx fx s dd = .error .notempty :=
-  rmdirFx_renamedIn fx s dd aa t hfx hde hm hc he
-
-theorem witness_F_C10_9 : run {} St.init (quiet hist9) ≠ lRun Live.init hist9 := by decide
-theorem fixed_F_C10_9 : runFx fx9 {} St.init (quiet hist9) = lRun Live.init hist9 := by decide
-/-- F-C10-9 repaired, in general: open with create / create_new on a directory path fails
-    (`AlreadyExists` for create_new, `IsADirectory` otherwise) and leaves the fs untouched -/
-theorem fixed_F_C10_9_general (fx : Fixes) (s : Fs) (p : Path) (fl : Flags) (hfx : fx.createOverDir = true)
-    (hd : dirExistsFx fx s p = true) (hf : fileExistsFx fx s p = false) (hc : (fl.c || fl.n) = true) :
-    openFsFx fx s p fl = .error (if fl.n then .alreadyexists else .isdir) :=
-  openFsFx_dir_fails fx s p fl hfx hd hf hc
-
-def fx10 : Fixes := { fsyncResolve := true }
-theorem witness_F_C10_10 : run {} St.init (quiet hist10) ≠ lRun Live.init hist10 := by decide
-/-- F-C10-10 repaired: fsync through the new name of a renamed file flushes the file's data into the
-    inode (still keyed by the old name); the following sync_dir moves it along -/
-theorem fixed_F_C10_10 : runFx fx10 {} St.init (quiet hist10) = lRun Live.init hist10 := by decide
-
-def fx3 : Fixes := { dataKeyResolve := true }
-theorem witness_F_C10_3 : run {} St.init (quiet hist3) ≠ lRun Live.init hist3 := by decide
-/-- F-C10-3 narrowed: a write through the new name of a file with a pending rename is keyed by the
-    name the inode still has and is therefore visible -/
-theorem fixed_F_C10_3 : runFx fx3 {} St.init (quiet hist3) = lRun Live.init hist3 := by decide
-/-- what stays open: a file created under the *old* name of a pending rename shares the old key with
-    the renamed file — its bytes show up in the renamed file as well -/
-def hist3c : List Op := [.open 0 a WC, .close 0, .rename a b, .writeFile a [65, 66], .readFile b]
-theorem open_F_C10_3_aliasing : runFx fx3 {} St.init (quiet hist3c) ≠ lRun Live.init hist3c := by decide
 
 end TV.C10
